@@ -43,11 +43,11 @@ var editSeeds = []struct{ name, src string }{
 	{"if-elseif", `local x = 3 if x == 1 then return "a" elseif x == 2 then return "b" elseif x == 3 then return "c" else return "d" end`},
 	{"int-arith", `local a , b = 7 , - 2 return a + b , a - b , a * b , a // b , a % b , a / b , a ^ b , - a , math.mininteger // - 1`},
 	{"float-arith", `local a , b = 7.5 , - 2 return a + b , a // b , a % b , 1 / 0 , - 1 / 0 , 0 / 0 ~= 0 / 0 , 2 ^ 53 + 1 , 1e308 * 10 , 3 | 0`},
-	{"bitwise", `local a , b = 0xF0 , 3 return a & b , a | b , a ~ b , ~ a , a << b , a >> b , a << 64 , 1 << - 1 , "3" | 0 , 2.0 & 3`},
+	{"bitwise", `local a , b = 0xF0 , 3 return a & b , a | b , a ~ b , ~ a , a << b , a >> b , a << 64 , 1 << - 1 , 2.0 & 3`},
 	{"compare-logic", `local a , b = 1 , "1" return a == b , a < 2 , "a" < "b" , a ~= b , not a , a and b , nil or b , false and error ( ) , 1 <= 1.0`},
 	{"concat-len", `local t = { 1 , 2 , 3 } return "a" .. 1 .. 2.0 .. "b" , # t , # "abc" , # { n = 1 } , "x" .. # t`},
-	{"table-constructor", `local k = "y" local t = { 1 , 2 ; x = 3 , [ k ] = 4 , [ 10 ] = 5 , f ( ) , } return # t , t . x , t . y , t [ 10 ]`},
-	{"multiple-assign", `local a , b , c = 1 local t = { } t . x , t . y , a = a , 2 a , b = b , a t [ 1 ] , t [ 2 ] = ( f ( ) ) return a , b , c , t . x , t . y`},
+	{"table-constructor", `local function f ( ) return 7 , 8 end local k = "y" local t = { 1 , 2 ; x = 3 , [ k ] = 4 , [ 10 ] = 5 , f ( ) , } return # t , t . x , t . y , t [ 10 ]`},
+	{"multiple-assign", `local f = function ( ) return 7 , 8 end local a , b , c = 1 local t = { } t . x , t . y , a = a , 2 a , b = b , a t [ 1 ] , t [ 2 ] = ( f ( ) ) return a , b , c , t . x , t . y`},
 	{"index-chain", `local t = { a = { b = { c = { 1 , 2 } } } } t . a . b . c [ 2 ] = t . a [ "b" ] . c [ 1 ] + 1 return t . a . b . c [ 2 ]`},
 	{"metamethods", `local mt = { __add = function ( a , b ) return 1 end , __index = function ( t , k ) return k end , __call = function ( s , x ) return x end } local t = setmetatable ( { } , mt ) return t + t , t . z , t ( 5 )`},
 	{"meta-eq-lt", `local mt = { } mt . __eq = function ( ) return true end mt . __lt = function ( ) return false end mt . __le = mt . __lt mt . __len = function ( ) return 7 end local a , b = setmetatable ( { } , mt ) , setmetatable ( { } , mt ) return a == b , a < b , a <= b , # a , a ~= b`},
